@@ -419,7 +419,10 @@ package tchannel
 // facts cannot be carried through the connection's exchange-change callbacks.)
 //@ func (r *Relayer) failRelayItem(items *relayItems, id uint32, reason string, err error)
 //@   trusted
-//@   modifies allbut lazyCallReq, Frame, own, bytes, writableFragment
+// (fragmentingWriter, cs: not assumed -- they are in the keep-list of the VERIFIED
+// contract of failRelayItem, verif_contracts_conform.go; repeated here because
+// this view replaces that frame in C14 functions)
+//@   modifies allbut lazyCallReq, Frame, own, bytes, writableFragment, fragmentingWriter, cs
 //@   property C14
 
 // (reads the pending counter and the connection state: no effect except the
